@@ -374,10 +374,23 @@ pub fn events_for<V: Variant>() -> Vec<Event> {
 pub enum Recorded {
     Str(String),
     Bytes(Vec<u8>),
+    /// serialize_str was handed a `&str` whose bytes are not UTF-8 (undefined behaviour made visible)
+    InvalidStr(Vec<u8>),
 }
 
 pub struct RecSer {
     pub human: bool,
+    /// a misbehaving (but safe) serializer: successive is_human_readable() answers; the last one repeats
+    pub answers: Option<(std::cell::Cell<usize>, Vec<bool>)>,
+}
+
+impl RecSer {
+    pub fn constant(human: bool) -> Self {
+        RecSer { human, answers: Option::None }
+    }
+    pub fn flipping(answers: &[bool]) -> Self {
+        RecSer { human: answers[0], answers: Some((std::cell::Cell::new(0), answers.to_vec())) }
+    }
 }
 
 macro_rules! reject {
@@ -405,10 +418,21 @@ impl serde::Serializer for RecSer {
     type SerializeStruct = serde::ser::Impossible<Recorded, MockError>;
     type SerializeStructVariant = serde::ser::Impossible<Recorded, MockError>;
     fn is_human_readable(&self) -> bool {
-        self.human
+        match &self.answers {
+            Some((i, a)) => {
+                let k = i.get();
+                i.set(k + 1);
+                a[k.min(a.len() - 1)]
+            }
+            Option::None => self.human,
+        }
     }
     fn serialize_str(self, v: &str) -> Result<Recorded, MockError> {
-        Ok(Recorded::Str(v.to_string()))
+        // record the raw bytes: in a build with feature 'unsafe' a `&str` that is not UTF-8 can arrive here
+        match std::str::from_utf8(v.as_bytes()) {
+            Ok(s) => Ok(Recorded::Str(s.to_string())),
+            Err(_) => Ok(Recorded::InvalidStr(v.as_bytes().to_vec())),
+        }
     }
     fn serialize_bytes(self, v: &[u8]) -> Result<Recorded, MockError> {
         Ok(Recorded::Bytes(v.to_vec()))
@@ -458,13 +482,39 @@ where
 {
     let h = V::from_slice(bytes).map_err(|e| format!("try_from: {e:?}"))?;
     let text = String::from_utf8(ref_hex_format(bytes, V::CK, true)).unwrap();
-    match catch(|| h.serialize(RecSer { human: true })).map_err(|p| format!("serialize panicked: {p}"))? {
+    match catch(|| h.serialize(RecSer::constant(true))).map_err(|p| format!("serialize panicked: {p}"))? {
         Ok(Recorded::Str(s)) if s == text => {}
         other => return Err(format!("{} human-readable serialization of {} is {:?}, expected exactly one str item {text:?}", V::NAME, hex(bytes), other.map_err(|e| e.0))),
     }
-    match catch(|| h.serialize(RecSer { human: false })).map_err(|p| format!("serialize panicked: {p}"))? {
+    match catch(|| h.serialize(RecSer::constant(false))).map_err(|p| format!("serialize panicked: {p}"))? {
         Ok(Recorded::Bytes(b)) if b == bytes => {}
         other => return Err(format!("{} compact serialization of {} is {:?}, expected exactly one bytes item carrying the binary form", V::NAME, hex(bytes), other.map_err(|e| e.0))),
+    }
+    Ok(())
+}
+
+/// A safe but misbehaving Serializer (C17: caller-supplied trait implementations): its is_human_readable()
+/// answer changes between calls. Whatever it is handed is outside what C16 defines; the one thing that must
+/// never happen (C17) is undefined behaviour in the caller's safe code: a `&str` that is not UTF-8.
+pub fn judge_flipping_serializer<V: SerdeVariant>(bytes: &[u8]) -> Result<(), String>
+where
+    V::Hash: Serialize + DeserializeOwned,
+{
+    let h = V::from_slice(bytes).map_err(|e| format!("try_from: {e:?}"))?;
+    let text = String::from_utf8(ref_hex_format(bytes, V::CK, true)).unwrap();
+    for pattern in [&[false, true][..], &[true, false], &[false, true, false], &[true, false, true], &[false, false, true], &[true, true, false]] {
+        match catch(|| h.serialize(RecSer::flipping(pattern))) {
+            Err(_) => {}     // a clean panic is the worst the property allows
+            Ok(Err(_)) => {} // an error is fine
+            Ok(Ok(Recorded::Str(s))) if s == text => {}
+            Ok(Ok(Recorded::Bytes(b))) if b == bytes => {}
+            Ok(Ok(Recorded::InvalidStr(raw))) => {
+                return Err(format!("{}: a Serializer whose is_human_readable() answers {pattern:?} was handed a &str that is not UTF-8 ({}) - undefined behaviour in safe caller code", V::NAME, hex(&raw)));
+            }
+            // anything else a serializer of undefined mode receives (e.g. the binary form as a str that happens to be
+            // valid UTF-8) is outside what the properties define: not judged
+            Ok(Ok(_)) => {}
+        }
     }
     Ok(())
 }
@@ -653,6 +703,36 @@ where
             },
         );
     }
+    let name = format!("flipping-serializer-{}", V::NAME);
+    if ctx.want(&name) {
+        r.section(
+            &name,
+            "a safe but misbehaving Serializer whose is_human_readable() answer changes between calls (6 answer patterns), for every one-byte-deviation value: the one outcome that is a violation is a `&str` whose bytes are not UTF-8 (with feature 'unsafe' the text goes through from_utf8_unchecked); errors, clean panics and any well-formed str or bytes are accepted; non-trivial = all",
+            &format!("{} values x 6 answer patterns", value_count::<V>()),
+            true,
+            |s| {
+                let n1 = value_count::<V>();
+                s.acc = par_for(n1, 256, |idx, acc| {
+                    let bytes = value_by_index::<V>(idx);
+                    if !constructible::<V>(&bytes) {
+                        return;
+                    }
+                    acc.evals += 1;
+                    acc.transitions += 6;
+                    acc.nontrivial += 1;
+                    match judge_flipping_serializer::<V>(&bytes) {
+                        Ok(()) => {
+                            if idx % 4099 == 0 {
+                                acc.outcomes.insert_bytes(&bytes);
+                                acc.sample(idx, || json!({"variant": V::NAME, "value": hex(&bytes)}));
+                            }
+                        }
+                        Err(e) => acc.fail(idx, &name, e, json!({"kind": "flipping", "key": "serde-flipping-serializer", "variant": V::NAME, "value": hex(&bytes)})),
+                    }
+                });
+            },
+        );
+    }
     let name = format!("events-{}", V::NAME);
     if ctx.want(&name) {
         let evs = events_for::<V>();
@@ -717,6 +797,13 @@ where
     println!("event {} payload {} human_readable={human}", ev.name(), ev.payload_json());
     judge_event::<V>(human, ev).map(|c| println!("outcome class {c}"))
 }
+fn replay_flipping<V: SerdeVariant>(b: &[u8]) -> Result<(), String>
+where
+    V::Hash: Serialize + DeserializeOwned,
+{
+    judge_flipping_serializer::<V>(b)
+}
+
 fn replay_formats<V: SerdeVariant>(b: &[u8]) -> Result<(), String>
 where
     V::Hash: Serialize + DeserializeOwned,
@@ -747,6 +834,10 @@ pub fn replay(case: &Value) -> Result<(), String> {
         "formats" => {
             let b = unhex(case["value"].as_str().ok_or("value")?);
             with_variant!(v, replay_formats(&b))
+        }
+        "flipping" => {
+            let b = unhex(case["value"].as_str().ok_or("value")?);
+            with_variant!(v, replay_flipping(&b))
         }
         "json-doc" | "bin-doc" => with_variant!(v, replay_docs()),
         k => Err(format!("unknown replay kind {k}")),
